@@ -307,6 +307,42 @@ func (c04) Run(ts *tape.Set, tier Tier) *Result {
 				want := content[from:]
 				var got []byte
 				var err error
+				if a%4 == 3 && r.pos < L {
+					// io.Copy into a destination that fails part-way, then the
+					// caller carries on with the SAME reader: wherever the reader
+					// says it is afterwards, the bytes it hands out next are the
+					// bytes at that position
+					limit := int(b % uint64(L-r.pos+1))
+					fw := &failingWriter{limit: limit}
+					_, cerr := io.Copy(fw, r.rs)
+					buf := make([]byte, 1+int(b>>32)%64)
+					n, rerr := r.rs.Read(buf)
+					p2, serr := r.rs.Seek(0, io.SeekCurrent)
+					sc.Ops = append(sc.Ops, c04Op{Reader: ri, Op: "io.Copy(failing writer)+Read", K: limit})
+					sig = fnvMix(sig, 6, uint64(ri), boolU(cerr == nil), boolU(rerr == nil))
+					res.probe("copy-into-failing-writer-then-read")
+					if !bytes.Equal(fw.got, content[r.pos:r.pos+int64(len(fw.got))]) {
+						res.fail("c04/drain-wrong-bytes", "op %d: io.Copy from offset %d delivered %d bytes that differ from the content there", i, r.pos, len(fw.got))
+						return
+					}
+					if serr != nil || (rerr != nil && rerr != io.EOF) {
+						res.fail("c04/read-error", "op %d: after io.Copy into a failing writer, Read returned (%d, %v) and Seek(0, SeekCurrent) (%d, %v)", i, n, rerr, p2, serr)
+						return
+					}
+					start := p2 - int64(n)
+					bad := n < 0 || start < 0 || (p2 > L && n > 0)
+					if !bad && n > 0 {
+						bad = !bytes.Equal(buf[:n], content[start:p2])
+					}
+					if bad {
+						res.fail("c04/read-wrong-bytes", "op %d: after io.Copy into a failing writer (it accepted %d bytes from offset %d) a Read returned %d bytes and the reader then reports position %d; those bytes are not content[%d:%d]", i, len(fw.got), r.pos, n, p2, p2-int64(n), p2)
+						return
+					}
+					r.pos = p2
+					r.stalled, r.contRead = 0, false
+					lastReader = ri
+					continue
+				}
 				how := []string{"io.Copy", "io.ReadAll", "io.Copy(plain writer)"}[a%3]
 				if ra, ok := r.rs.(io.ReaderAt); ok && L > 0 {
 					off := int64(b % uint64(L))
@@ -568,4 +604,23 @@ func atInteriorEdge(m *dagmodel.File, p int64) bool {
 		}
 	}
 	return false
+}
+
+// failingWriter accepts limit bytes and then fails.
+type failingWriter struct {
+	limit int
+	got   []byte
+}
+
+func (f *failingWriter) Write(p []byte) (int, error) {
+	room := f.limit - len(f.got)
+	if room <= 0 {
+		return 0, fmt.Errorf("destination full (injected)")
+	}
+	if len(p) > room {
+		f.got = append(f.got, p[:room]...)
+		return room, fmt.Errorf("destination full (injected)")
+	}
+	f.got = append(f.got, p...)
+	return len(p), nil
 }
